@@ -72,7 +72,8 @@ def gen_world_plan(rng, backends=BACKENDS, **synth_kw):
     plan = synth.gen_plan(rng, **synth_kw)
     plan["backend"] = rng.choice(list(backends))
     plan["dirs"] = rng.choice([[], ["a"], ["data", "ALOS2"], ["x", "y", "z"], ["a"], ["d.1", "e"],
-                               ["donn\u00e9es"], ["\u30c7\u30fc\u30bf", "my data"]])
+                               ["donn\u00e9es"], ["\u30c7\u30fc\u30bf", "my data"],
+                               ["scene#2"], ["a%2Db", "q?x=1"]])
     plan["trailing_slash"] = rng.random() < 0.25
     return plan
 
